@@ -92,10 +92,12 @@ type SpecDB struct {
 	Errors    []string
 	PureFns   map[string]bool
 	PurePkgs  map[string]bool
+	// Effects: declared nondeterminism-relevant primitives per function ("effect <func> <id>: reason")
+	Effects map[string]map[string]string
 }
 
 func NewSpecDB() *SpecDB {
-	return &SpecDB{Contracts: map[string]*Contract{}, Specs: map[string]*SpecFn{}, UFuns: map[string]*UFunDecl{}, Ghosts: map[string]Sort{}, PureFns: map[string]bool{}, PurePkgs: map[string]bool{}}
+	return &SpecDB{Contracts: map[string]*Contract{}, Specs: map[string]*SpecFn{}, UFuns: map[string]*UFunDecl{}, Ghosts: map[string]Sort{}, PureFns: map[string]bool{}, PurePkgs: map[string]bool{}, Effects: map[string]map[string]string{}}
 }
 
 var tagRe = regexp.MustCompile(`\s+\[(C[0-9]{2,3}(?:\s*,\s*C[0-9]{2,3})*)\]\s*$`)
@@ -104,7 +106,7 @@ var clauseKeywords = map[string]bool{
 	"func": true, "requires": true, "ensures": true, "modifies": true, "allocates": true,
 	"loop": true, "pure": true, "trusted": true, "inline": true, "tags": true, "spec": true,
 	"ufun": true, "axiom": true, "ghost": true, "package": true, "lib": true, "nopanic": true, "arith": true,
-	"purepkg": true, "purefn": true, "sameas": true, "preserves": true, "objinv": true, "implements": true, "assumes": true,
+	"purepkg": true, "purefn": true, "effect": true, "sameas": true, "preserves": true, "objinv": true, "implements": true, "assumes": true,
 }
 
 // LoadFile parses one contract or spec file. defaultPkg is the Go package path
@@ -178,6 +180,22 @@ func (db *SpecDB) LoadFile(path, defaultPkg string, lib bool) error {
 		switch {
 		case kw == "package":
 			pkg = strings.Trim(rest, `"`)
+			cur = nil
+		case kw == "effect":
+			// effect <func> <id>: reason   — an effect clause of the function's contract (C01): the listed
+			// primitive is present in the body and is justified by the reason (an obligation or an argument)
+			f := strings.Fields(rest)
+			if len(f) < 2 {
+				fail(l.no, "effect needs a function and an effect id")
+				continue
+			}
+			id := strings.TrimSuffix(f[1], ":")
+			reason := strings.TrimSpace(strings.TrimPrefix(strings.TrimSpace(rest[len(f[0]):]), f[1]))
+			key := pkg + "." + f[0]
+			if db.Effects[key] == nil {
+				db.Effects[key] = map[string]string{}
+			}
+			db.Effects[key][id] = strings.TrimPrefix(reason, ":")
 			cur = nil
 		case kw == "purepkg":
 			db.PurePkgs[strings.Trim(rest, `"`)] = true
